@@ -16,7 +16,7 @@ from .c01 import specials
 RULE = ("pairs of binomial opinions differing in every subset of {b,d,u,a} by 0, 1 ulp, tolerance/2, 2*tolerance or a "
         "large amount, for ==, abs_diff_eq, relative_eq and ulps_eq with tolerances from 0 to 1e-2 and max_ulps 0..8, "
         "f32/f64 (NaN, infinities and signed zeros included); pairs of multinomial opinions equal or differing in one "
-        "cell (belief, uncertainty or base rate), sizes 1..4 and 2-D / 3-D labelled arrays, all container families; "
+        "cell (belief, uncertainty or base rate), sizes 1..5, 7 and 2-D / 3-D labelled arrays, all container families; "
         "non-trivial = the two operands differ")
 COQ = core.COQ
 
@@ -52,7 +52,7 @@ def gen(rng, tier):
                 if rng.chance(1, 3):
                     y[k] = perturb(rng, ty, x[k], tol if tol > 0 else e)
             cases.append(dict(op="beq", ty=ty, fam="bi", style="-", dims=[ulps], nums=x + y + [tol, rel], kind="bop"))
-        sizes = [("arr", n) for n in (1, 2, 3, 4)] + [("marr", n) for n in (1, 2, 3, 4)] + [("marrd", n) for n in (1, 2, 3, 4)] + \
+        sizes = [("arr", n) for n in (1, 2, 3, 4, 5, 7)] + [("marr", n) for n in (1, 2, 3, 4, 5, 7)] + [("marrd", n) for n in (1, 2, 3, 4, 5, 7)] + \
                 [("marr2", 4), ("marr2", 6), ("marrd2", 4), ("marrd2", 6), ("marrd3", 8)]
         for fam, n in sizes:
             for i in range(max(4, nrand // 40)):
